@@ -448,7 +448,33 @@ def rule_tags(ctx):
            'OscBundleParseError instead of skipping the element and dispatching its siblings', pc.node, m)
 
 
+def rule_accept(ctx):
+    ctx.rule('C18.effect', 'the three source/port wrappers accept a message exactly when the sender host equals the responder\'s, the sender '
+                           'port equals it unless the responder gave none, and (when given) the receive port equals it; the combined '
+                           'wrapper is the conjunction of the two single ones; wrap_func picks the wrapper from what the responder specifies')
+    m = ctx.repo.module('sc3.base.responders')
+    ADDR = ['self.addr.addr == addr.addr', 'self.addr.port is None or self.addr.port == addr.port']
+    PORT = ['self.recv_port == recv_port']
+    want = {'OscFuncAddrMessageMatcher': ADDR, 'OscFuncRecvPortMessageMatcher': PORT, 'OscFuncBothMessageMatcher': ADDR + PORT}
+    for cname, conj in want.items():
+        f = m.classes[cname].methods['__call__']
+        body = U.body_nodoc(f.node)
+        test = ' and '.join(conj)
+        ok = len(body) == 1 and isinstance(body[0], ast.If) and [norm(c) for c in U.conjuncts(body[0].test)] == conj and not body[0].orelse and \
+            [norm(x) for x in body[0].body] == ['fn.value(self.func, msg, time, addr, recv_port)']
+        ctx.ob('C18.effect', f'{f.fq}:accepts', ok,
+               f'{cname} must invoke its function exactly under `{test}` with (msg, time, addr, recv_port)', f.node, m)
+    w = m.classes['OscMessageDispatcher'].methods['wrap_func']
+    src = full(w.node)
+    ok = U.before(src, 'if arg_template is not None: func = OscArgsMatcher(arg_template, func)',
+                  'if src_id is not None and recv_port is not None: return OscFuncBothMessageMatcher(src_id, recv_port, func)',
+                  'elif src_id is not None: return OscFuncAddrMessageMatcher(src_id, func)',
+                  'elif recv_port is not None: return OscFuncRecvPortMessageMatcher(recv_port, func)', 'else: return func')
+    ctx.ob('C18.effect', f'{w.fq}:selection', ok, 'the wrapper chosen tests exactly what the responder specified (template inside, source/port outside)', w.node, m)
+
+
 def run(ctx):
+    rule_accept(ctx)
     rule_tags(ctx)
     rule_anchor(ctx)
     rule_snap(ctx)
@@ -459,6 +485,10 @@ def run(ctx):
 
 
 MUTANTS = [
+    dict(rule='C18.effect', name='source matcher ignores the sender port', file='sc3/base/responders.py', count=2,
+         old="and (self.addr.port is None or self.addr.port == addr.port)", new="and True"),
+    dict(rule='C18.effect', name='wrap_func drops the receive-port test when a source is given', file='sc3/base/responders.py',
+         old="            return OscFuncBothMessageMatcher(src_id, recv_port, func)", new="            return OscFuncAddrMessageMatcher(src_id, func)"),
     dict(rule='C18.anchor', name='(fix reverted) every comma of a pattern is an alternation', file='sc3/base/_oscmatch.py',
          old="        elif symbol == ',' and depth <= 0:\n            return ','  # A comma is only special within braces.\n", new=""),
     dict(rule='C18.wire', name='(fix reverted) an unidentifiable bundle element is skipped', file='sc3/base/_osclib.py',
